@@ -29,7 +29,7 @@ KINDS = {
         "trace_a": ("Trace_PubSubRouter", "Trace_PubSubRouter.cfg"),
         "devs": ["FixD1", "FixD2", "FixD6"],
         "tiers": {
-            "quick": {"gen_env": 4, "gen_cap": 4000, "sim": 1500, "random": 1500, "rand_args": []},
+            "quick": {"gen_env": 4, "gen_cap": 4000, "sim": 1500, "random": 3000, "rand_args": []},
             "thorough": {"gen_env": 6, "gen_cap": 200000, "sim": 20000, "random": 20000,
                          "rand_args": ["--max-pubs", "4", "--max-subs", "5", "--max-items", "8", "--len", "60"]},
         },
@@ -45,7 +45,7 @@ KINDS = {
         "trace_a": ("Trace_ReqRepRouter", "Trace_ReqRepRouter.cfg"),
         "devs": ["FixD3", "FixD4", "FixD5", "FixD6", "FixD9", "FixD16"],
         "tiers": {
-            "quick": {"gen_env": 4, "gen_cap": 4000, "sim": 1500, "random": 1500, "rand_args": []},
+            "quick": {"gen_env": 4, "gen_cap": 4000, "sim": 1500, "random": 4000, "rand_args": []},
             "thorough": {"gen_env": 5, "gen_cap": 150000, "sim": 20000, "random": 20000,
                          "rand_args": ["--len", "60"]},
         },
